@@ -101,7 +101,7 @@ class MeasurementOutcomeDistribution:
             raise ValueError("There exist duplicate indices in the active qubit list")
 
         for key, value in self.distribution_dict.items():
-            new_key = "".join(str(key[i]) for i in active_qubits)
+            new_key = tuple(key[i] for i in active_qubits)
             new_counts[new_key] = value + new_counts.get(new_key, 0)
         normalize = is_normalized(self.distribution_dict)
         return MeasurementOutcomeDistribution(new_counts, normalize=normalize)
